@@ -35,7 +35,7 @@ Explained(e) ==
        ELSE /\ (e.chk \in {"all", "shape"} => (~e.panic /\ e.count = K!Produced(f) /\ (K!AllFinite(f) => e.finite)))
             \* sequences on one object: the object's coefficients must be the current ones (mutators took effect, observers changed nothing)
             /\ (Has(e, "synced") => e.synced)
-            /\ (e.chk \in {"all", "be"} => K!BeOK(e.deg, e.refine, e.be_e15, e.be_units))
+            /\ (e.chk \in {"all", "be"} => K!BeOK(e.deg, e.refine, IF Has(e, "amp_e") THEN e.amp_e ELSE 99, e.be_e15, e.be_units))
             /\ (e.chk \in {"all", "match"} =>
                    /\ (e.sep => e.match_units <= MatchGuard)
                    /\ ((e.sep /\ e.exact) => (Len(e.zr) = Len(e.rre) /\ Len(e.zi) = Len(e.rre) /\ PairSet(e.zr, e.zi) = PairSet(e.rre, e.rim))))
